@@ -185,6 +185,12 @@ class StringLiteral(Literal[str]):
     def __sizeof__(self) -> int:
         return sys.getsizeof(self.value)
 
+    def __str__(self) -> str:
+        # String literals have no escape sequences. Everything between the quotes
+        # is the value, so we must not use Python's `repr`.
+        quote = '"' if "'" in self.value else "'"
+        return f"{quote}{self.value}{quote}"
+
     def evaluate(self, context: RenderContext) -> Union[str, Markup]:
         if context.autoescape:
             return Markup(self.value)
